@@ -1,6 +1,7 @@
 //! vh: conformance harness binding the TLA+ specification to the real debruijn crate.
 //!   vh record <domain> --out FILE [--seed N] [--tier quick|thorough] [--n N] [--events a,b,c] [--part i/n]
 //!   vh replay <domain> --in FILE --out FILE
+mod datadom;
 mod graphdom;
 mod graphdom2;
 mod graphrec;
@@ -66,6 +67,8 @@ fn main() {
     match (args.cmd.as_str(), args.domain.as_str()) {
         ("record", "graph") => graphrec::record(&sink, &args),
         ("replay", "graph") => graphrec::replay(&sink, &args),
+        ("record", "data") => datadom::record(&sink, &args),
+        ("replay", "data") => datadom::replay(&sink, &args),
         (c, d) => {
             eprintln!("unknown command/domain {} {}", c, d);
             std::process::exit(2);
